@@ -90,5 +90,43 @@ def r03_7(ctx):
 r03_7.rule_id = "R03.7"
 
 
-RULES = [r03_1, r03_2, r03_3, r03_4, r03_5, r03_6, r03_7]
-FLOORS = {"R03.1r": 8, "R03.1": 7, "R03.2": 3, "R03.3": 10, "R03.4": 14, "R03.5": 8, "R03.6": 1, "R03.7": 1}
+def r03_8(ctx):
+    """DHP: retired_array::fini() hands the retired blocks back without disposing what they hold - outside the destructors and help_scan's
+    own drained-source case it is reached only on a path where empty() of that same array was found true with nothing in between that can
+    add to the array (scan / help_scan / push): help_scan adopts still-guarded objects of orphaned records into the caller's array"""
+    from sa.pathsim import PathSim
+    from sa.q import cond_atoms, noepoch
+    ADD = re.compile(r"::(scan|help_scan|inplace_scan|classic_scan|push|safe_push|retire|extend)$")
+    n = 0
+    for F in ctx.db.funcs.values():
+        if not F.q.startswith("cds::gc::dhp::") or F.kind in ("ctor", "dtor") or F.q.endswith("::help_scan") or F.q.endswith("retired_array::fini"):
+            continue
+        if not Q.calls_in(F, r"dhp::retired_array::fini$"):
+            continue
+        for p in PathSim(F, bound=4000).run():
+            ev = p.events
+            atoms = cond_atoms(p)
+            for i, e in enumerate(ev):
+                if not (e.kind == "call" and e.q and e.q.endswith("dhp::retired_array::fini")):
+                    continue
+                n += 1
+                ok = False
+                why = "no 'empty()' outcome of that array on the path"
+                for j, c in enumerate(ev[:i]):
+                    if c.kind == "call" and c.q and c.q.endswith("dhp::retired_array::empty") and noepoch(c.obj) == noepoch(e.obj):
+                        if any(noepoch(a) == noepoch(c.val) and tv for a, tv, b in atoms if ev.index(b) < i):
+                            adders = [x.q.split("::")[-1] for x in ev[j + 1:i] if x.kind == "call" and x.q and ADD.search(x.q)]
+                            if not adders:
+                                ok = True
+                            else:
+                                why = "between the empty() test (line %s) and fini() the path calls %s" % (c.node.get("l") if c.node else "?", adders)
+                ctx.check(ok, "R03.8", F, "the retired array is released without disposing only after it was found empty, with nothing in between that can add to it", e.node,
+                          detail="%s: objects adopted from orphaned records (or retired meanwhile) are dropped with the blocks and never disposed. %s" % (why, R),
+                          sig="fini-after-fresh-empty")
+    if n < 1:
+        ctx.broken("no guarded retired_array::fini() site found")
+r03_8.rule_id = "R03.8"
+
+
+RULES = [r03_1, r03_2, r03_3, r03_4, r03_5, r03_6, r03_7, r03_8]
+FLOORS = {"R03.1r": 8, "R03.1": 7, "R03.2": 3, "R03.3": 10, "R03.4": 14, "R03.5": 8, "R03.6": 1, "R03.7": 1, "R03.8": 1}
